@@ -26,12 +26,19 @@
 (*    of F0E1D2C3B4A5968778695A4B3C2D1E0F0011223344556677, n = 1..24,      *)
 (*    plaintext FEDCBA9876543210).  n = 4..24 run through the block-cipher *)
 (*    constructor; n = 1..3 (not accepted by the Rust key type) through    *)
-(*    the eksblowfish events init + expand.                                *)
-(*  - random 16-byte-key vectors computed by OpenSSL 3.5 (bf-ecb).         *)
-(*  - BlowfishLE: the vectors above with each 4-byte half of plaintext and *)
-(*    ciphertext byte-reversed.                                            *)
-(*  - one complete bcrypt computation ($2a$, cost 4) whose final           *)
-(*    ciphertext is the hash computed by libcrypt (crypt_blowfish).        *)
+(*    the eksblowfish events init + expand.  (The 34 vectors are also the  *)
+(*    content of /repo/blowfish/tests/data/blowfish.blb; all 24 variable-  *)
+(*    length answers were reproduced with OpenSSL 3.5.)                    *)
+(*  - 12 random 16-byte-key vectors computed by OpenSSL 3.5                *)
+(*    (openssl enc -bf-ecb -nopad -K .. -provider legacy).                 *)
+(*  - BlowfishLE: 22 of the vectors above with each 4-byte half of         *)
+(*    plaintext and ciphertext byte-reversed.                              *)
+(*  - one complete bcrypt computation (Provos-Mazieres fig. 3: salted      *)
+(*    ExpandKey, 2^4 x (expand key, expand salt), 64 x 3 ECB encryptions   *)
+(*    of "OrpheanBeholderScryDoubt"): password "Kk4DQuMMfZL9o", hash       *)
+(*    $2b$04$cVWp4XaNU8a4v1uMRum2SO026BWLIoQMD/TXg5uZV.0P.uO8m3YEm (test   *)
+(*    vector of pyca/bcrypt, reproduced with libcrypt's crypt_blowfish);   *)
+(*    the last three encrypt events carry the 23 hash bytes.               *)
 (*                                                                         *)
 (* Theorems (checked on the known-answer trace by the "same" pseudo-event  *)
 (* of Conf_Blowfish, which compares two instance states):                  *)
